@@ -68,8 +68,11 @@ def main(argv):
     for hid, prop, path, old, new in HAND:
         cases.append((hid, prop, ('edit', path, old, new)))
     failed = 0
+    skip = tuple(x for x in os.environ.get('SELFTEST_SKIP_SUFFIX', '').split(',') if x)     # e.g. '-8,-9,-10': seeds evaluated elsewhere
     for cid, prop, how in cases:
         if only and cid not in only and prop not in only:
+            continue
+        if skip and cid.startswith('seed-') and cid.endswith(skip):
             continue
         d = scratch()
         try:
